@@ -195,6 +195,18 @@ pub fn now() -> std::time::Instant {
     }
 }
 
+static COARSE_BASE: once_cell::sync::Lazy<coarsetime::Instant> =
+    once_cell::sync::Lazy::new(coarsetime::Instant::now);
+
+/// Clock read by the `Batcher` (adaptive batching): the real `coarsetime::Instant::now()`
+/// unless the calling thread installed a mock reading with [`set_mock_clock`].
+pub(crate) fn coarse_now() -> coarsetime::Instant {
+    match MOCK_CLOCK.with(|c| c.get()) {
+        Some(offset) => *COARSE_BASE + coarsetime::Duration::from(offset),
+        None => coarsetime::Instant::now(),
+    }
+}
+
 /// Install (or remove) the mock clock reading of the calling thread, as an offset from a
 /// fixed base instant.
 pub fn set_mock_clock(offset: Option<std::time::Duration>) {
